@@ -12,8 +12,14 @@ import (
 	"math"
 	"net"
 	"os"
+	"os/exec"
 	"path/filepath"
 	"regexp"
+	"runtime"
+	"strconv"
+	"strings"
+	"sync"
+	"sync/atomic"
 
 	"github.com/whatap/golib/util/bitutil"
 	"github.com/whatap/golib/util/hash"
@@ -183,8 +189,130 @@ type golden struct {
 	Digest map[string]string `json:"digest"`
 }
 
+// coldStart: the first calls a process ever makes into the hash and identifier helpers come
+// from many goroutines at the same instant (a server starting its worker goroutines). The
+// answers are compared with references that do not touch the library, and with the library's
+// own answers afterwards. Every child process of the check is one such observation, and each
+// child starts a number of further fresh processes of itself that do nothing else.
+func coldOnce(seed uint64) (bool, string) {
+	r := vlib.NewRand(seed)
+	buf := make([]byte, 1024)
+	for i := range buf {
+		buf[i] = byte(r.U64())
+	}
+	n := r.I64()
+	ip := int32(r.U64())
+	type res struct {
+		h            int32
+		h64, v2a, vb int64
+		s32          string
+		ips          string
+	}
+	const G = 16
+	out := make([]res, G)
+	var ready, start int32
+	var wg sync.WaitGroup
+	for g := 0; g < G; g++ {
+		wg.Add(1)
+		go func(g int) {
+			defer wg.Done()
+			runtime.LockOSThread()
+			defer runtime.UnlockOSThread()
+			atomic.AddInt32(&ready, 1)
+			for atomic.LoadInt32(&start) == 0 {
+			}
+			for spin := 0; spin < g*40; spin++ { // staggered by fractions of a microsecond
+				_ = atomic.LoadInt32(&start)
+			}
+			var o res
+			switch g % 4 { // different entry points first; the very first call's answer is kept
+			case 0:
+				o.h = hash.Hash(buf)
+			case 1:
+				o.h64 = hash.Hash64(buf)
+			case 2:
+				o.v2a = hash.Hash64v2(buf)
+			default:
+				o.vb = hash.Hash64V2(buf)
+			}
+			if g%4 != 0 {
+				o.h = hash.Hash(buf)
+			}
+			if g%4 != 1 {
+				o.h64 = hash.Hash64(buf)
+			}
+			if g%4 != 2 {
+				o.v2a = hash.Hash64v2(buf)
+			}
+			if g%4 != 3 {
+				o.vb = hash.Hash64V2(buf)
+			}
+			o.s32 = hexa32.ToString32(n)
+			o.ips = iputil.ToStringInt(ip)
+			out[g] = o
+		}(g)
+	}
+	for atomic.LoadInt32(&ready) < G {
+		runtime.Gosched()
+	}
+	atomic.StoreInt32(&start, 1)
+	wg.Wait()
+	want := res{int32(crc32.ChecksumIEEE(buf)), refHash64(buf), refHash64v2(buf), refHash64v2(buf), hexa32.ToString32(n), iputil.ToStringInt(ip)}
+	for g, o := range out {
+		if o != want {
+			return false, fmt.Sprintf("goroutine %d of %d got %+v, want %+v", g, G, o, want)
+		}
+	}
+	return true, ""
+}
+
+func coldStart(c *vlib.Ctx) {
+	c.Section("cold-start", true, func() {
+		seed := c.Rand("cold-start").U64()
+		fail := func(how, d string) {
+			c.Failf("first-use-under-concurrency", map[string]interface{}{"process": how, "seed": seed, "observed": d},
+				"the first calls of a fresh process, made by 16 goroutines at once, returned values that differ from the reference / from the same call made later (%s): %s", how, d)
+		}
+		if ok, d := coldOnce(seed); !ok {
+			fail("this child", d)
+		}
+		c.Count("cold_start_processes", 1)
+		extra := c.N(12, 96)
+		if c.Flavour == "race" {
+			extra = 2
+		}
+		for k := 0; k < extra; k++ {
+			cmd := exec.Command(os.Args[0])
+			cmd.Env = append(os.Environ(), fmt.Sprintf("VERIF_COLD_CHILD=%d", seed+uint64(k)+1))
+			b, err := cmd.CombinedOutput()
+			switch {
+			case err == nil:
+				c.Count("cold_start_processes", 1)
+			case cmd.ProcessState != nil && cmd.ProcessState.ExitCode() == 3:
+				c.Count("cold_start_processes", 1)
+				fail(fmt.Sprintf("fresh process %d", k), strings.TrimSpace(string(b)))
+				return
+			default:
+				c.Note(fmt.Sprintf("cold-start sub-process could not be run: %v %s", err, strings.TrimSpace(string(b))))
+			}
+		}
+		c.Eval(int64(extra) + 1)
+	})
+}
+
 func main() {
+	if v := os.Getenv("VERIF_COLD_CHILD"); v != "" {
+		seed, _ := strconv.ParseUint(v, 10, 64)
+		if ok, d := coldOnce(seed); !ok {
+			fmt.Println(d)
+			os.Exit(3)
+		}
+		return
+	}
 	c := vlib.Start("C15")
+	coldStart(c)
+	// the race flavour runs the concurrent parts only (cold start above, concurrent-purity below)
+	isRace := c.Flavour == "race"
 	checkHashOne := func(b []byte, where string) {
 		cp := append([]byte(nil), b...)
 		h := hash.Hash(b)
@@ -234,6 +362,9 @@ func main() {
 
 	// (1) all byte strings of length <= 2, exhaustively
 	c.Section("hash-exhaustive-len<=2", false, func() {
+		if isRace {
+			return
+		}
 		checkHashOne(nil, "nil")
 		checkHashOne([]byte{}, "empty")
 		n := int64(2)
@@ -253,6 +384,9 @@ func main() {
 
 	// (2) random byte strings up to 64 KiB
 	c.Cases("hash-random", c.N(20000, 400000), func(i int, r *vlib.Rand) {
+		if isRace {
+			return
+		}
 		var n int
 		switch r.Intn(10) {
 		case 0:
@@ -273,6 +407,9 @@ func main() {
 
 	// (3) murmur integer hashes
 	c.Cases("murmur-int", c.N(200000, 4000000)/1000, func(i int, r *vlib.Rand) {
+		if isRace {
+			return
+		}
 		for k := 0; k < 1000; k++ {
 			v := uint64(r.I64())
 			if got := hll.MurmurHashLong(v); got != refMurmurLong(v) {
@@ -294,6 +431,9 @@ func main() {
 
 	// (4) golden digests: the persisted identifier values never change
 	c.Section("golden", false, func() {
+		if isRace {
+			return
+		}
 		gr := vlib.NewRand(0xC15)
 		d := map[string][]byte{}
 		add := func(k string, v uint64) {
@@ -352,6 +492,9 @@ func main() {
 		}
 	}
 	c.Section("hexa32-near-powers", false, func() {
+		if isRace {
+			return
+		}
 		var cnt int64
 		seen := map[string]int64{}
 		for k := uint(0); k <= 12; k++ {
@@ -388,6 +531,9 @@ func main() {
 		c.Exhaustive("Hexa32: every n within ±64 of ±32^k (k=0..12), within 64 of both extremes, and -2000..2000")
 	})
 	c.Cases("hexa32-random", c.N(2000000, 200000000)/100000, func(i int, r *vlib.Rand) {
+		if isRace {
+			return
+		}
 		for k := 0; k < 100000; k++ {
 			hexaOne(r.I64())
 		}
@@ -402,6 +548,9 @@ func main() {
 
 	// (6) bit helpers
 	c.Section("bitutil-16", false, func() {
+		if isRace {
+			return
+		}
 		for h := 0; h < 256; h++ {
 			for l := 0; l < 256; l++ {
 				v := bitutil.Composite16(byte(h), byte(l))
@@ -435,6 +584,9 @@ func main() {
 		}
 	}
 	c.Section("bitutil-32", true, func() {
+		if isRace {
+			return
+		}
 		// all 2^32 pairs in thorough (sharded by the high half), a stratified 2^24 in quick
 		var cnt int64
 		step := 1
@@ -459,6 +611,9 @@ func main() {
 		}
 	})
 	c.Cases("bitutil-64", c.N(1000000, 50000000)/100000, func(i int, r *vlib.Rand) {
+		if isRace {
+			return
+		}
 		for k := 0; k < 100000; k++ {
 			check64(r.I32(), r.I32(), r.I64())
 		}
@@ -491,6 +646,9 @@ func main() {
 		}
 	}
 	c.Section("ipv4", true, func() {
+		if isRace {
+			return
+		}
 		var cnt int64
 		if c.Thorough() {
 			// all 2^32 addresses, sharded on the first octet pair
@@ -522,6 +680,9 @@ func main() {
 	// (7b) results are fresh values: scribbling over a returned slice must not change what a
 	// later call returns (a shared fallback slice or cached result would)
 	c.Section("ipv4-result-ownership", false, func() {
+		if isRace {
+			return
+		}
 		texts := []string{"", "1.2.3", "not-an-ip", "1.2.3.4.5", "300.1.2.3", "a.b.c.d", "10.20.30.40", "0.0.0.0", "255.255.255.255", " ", "..."}
 		var cnt int64
 		for round := 0; round < 3; round++ {
@@ -566,7 +727,10 @@ func main() {
 	// callers on unrelated inputs must get the same answers (a shared scratch buffer, a cached
 	// result or a pooled object would show here and nowhere in the sequential sections)
 	c.ParallelCases("concurrent-purity", c.N(8*16, 64*16), 8, func(i int, r *vlib.Rand) {
-		const per = 6000
+		per := 6000
+		if isRace {
+			per = 600
+		}
 		for k := 0; k < per; k++ {
 			hexaOne(r.I64())
 			check64(r.I32(), r.I32(), r.I64())
@@ -581,12 +745,15 @@ func main() {
 				}
 			}
 		}
-		c.Eval(per - 1)
+		c.Eval(int64(per) - 1)
 		c.DistinctEnum(1)
-		c.Count("concurrent_purity_calls", 4*per)
+		c.Count("concurrent_purity_calls", int64(4*per))
 	})
 	c.Sample(map[string]interface{}{"kind": "ipv4", "int": int32(-1062731775), "text": iputil.ToStringInt(-1062731775)})
-	c.Floor("hash_inputs_random", int64(c.N(20000, 400000)/10/c.NShards), c.Counter("hash_inputs_random"))
+	if !isRace {
+		c.Floor("hash_inputs_random", int64(c.N(20000, 400000)/10/c.NShards), c.Counter("hash_inputs_random"))
+	}
+	c.Floor("cold_start_processes", 1, c.Counter("cold_start_processes"))
 	c.Finish()
 	fmt.Println("done")
 }
